@@ -1404,6 +1404,19 @@ func TestC23(t *testing.T) {
 	targets := c23Targets()
 	its := c23IntTargets()
 
+	if j, ok := ev.ReplayJournal(); ok {
+		// replay of a crash journal: the byte string that was being decoded when the process died
+		var in []byte
+		if _, err := fmt.Sscanf(j, "C23 bytes %x", &in); err != nil && j != "C23 bytes " {
+			ev.Inconclusive("C23: cannot parse journal %q", j)
+		}
+		rec.Case("replay "+c23Sum(in), true, "replay")
+		if msg, _ := c23DecodeAll(in, targets); msg != "" {
+			t.Fatalf("C23 violated: %s", msg)
+		}
+		return
+	}
+
 	t.Run("roundtrip", func(t *testing.T) {
 		ev.Check(t, 3000, 12000, func(rt *rapid.T) {
 			g := &c23Gen{rt: rt, budget: ev.Pick(40, 120)}
@@ -1612,6 +1625,7 @@ func TestC23(t *testing.T) {
 					return
 				}
 				rec.Case(fmt.Sprintf("inflate %s %s", name, c23Sum(bad)), true, "reject:inflate")
+				ev.Journal(fmt.Sprintf("C23 bytes %x", bad))
 				// no target may accept an item whose declared size exceeds the input
 				for _, tg := range targets {
 					p := tg.fresh()
@@ -1652,6 +1666,7 @@ func TestC23(t *testing.T) {
 				kind = "mut(" + name + "):" + strings.Join(ks, "+")
 				rec.Label("from:" + name)
 			}
+			ev.Journal(fmt.Sprintf("C23 bytes %x", in)) // an out-of-memory abort cannot be recovered
 			msg, acc := c23DecodeAll(in, targets)
 			lab := "allReject"
 			if acc > 0 {
